@@ -23,7 +23,7 @@ theorem sep_not_before_first (sep : Bytes) (s : St) : sepWrite 0 sep s = ok s :=
   unfold sepWrite; simp
 
 theorem sep_before_every_later (n : Nat) (sep : Bytes) (s : St) (hn : 0 < n) (hs : sep ≠ []) :
-    sepWrite n sep s = s.write sep := by
+    sepWrite n sep s = s.write (regionEscape s.c sep) := by
   unfold sepWrite
   have : sep.isEmpty = false := by cases sep <;> simp_all
   simp [hn, this]
